@@ -592,7 +592,20 @@ func c15Float(c *hx.Ctx, r *hx.RNG) {
 	switch shape {
 	case 1:
 		z = new(big.Float).SetPrec(bp).SetMode(big.RoundingMode(r.Intn(6)))
-		z.SetInt64(12345)
+		switch r.Intn(6) { // what the destination held before
+		case 0:
+			z.SetInf(r.Bool())
+		case 1:
+			z.SetInt64(0)
+			if r.Bool() {
+				z.Neg(z)
+			}
+		case 2:
+			z.SetFloat64(-0.75)
+			z.SetMantExp(z, r.Range(-5000, 5000)) // (SetMantExp copies its argument's precision: only z itself keeps bp)
+		default:
+			z.SetInt64(12345)
+		}
 	case 2:
 		z = new(big.Float) // precision 0: documented max(ceil(prec*log2(10)), 64)
 	}
